@@ -110,6 +110,7 @@ def run_case(torf, wd, c):
     sched = shim.Sched(choose, rng, max_steps=c.get('max_steps', 20000))
     sched.refuse_start = set(c.get('refuse') or [])
     th, qu = shim.make_shims(sched)
+    shim.install_spin_monitor([G, S])
     saved = (G.threading, G.queue, G.time_monotonic)
     saved_open = S.__dict__.get('open', None)
     plan = {'calls': 0, 'fail_at': c.get('read_fault'), 'fired': 0, 'burst': c.get('read_fault_burst', 1),
